@@ -1,7 +1,7 @@
 SPECIFICATION Spec
 CONSTANTS
-    Feed <- FeedTwo
-    Calls <- CallsS
+    Feed <- FeedOne
+    Calls <- CallsNone
     PipeCap = 8
     MaxTicks = 1
     TimeoutOK = TRUE
